@@ -19,11 +19,18 @@ class CapturedPath:
         "Line: {}".format(self))
     return self._compute_captured_path()[0]
 
-  def _compute_captured_path(self):
+  def _compute_captured_path(self, nesting = ()):
+    # nesting: the groups, in which this one is being resolved
+    if any(self is group for group in nesting):
+      raise gfapy.RuntimeError(
+        "Captured path cannot be computed; the group is nested in itself\n"+
+        "Line: {}".format(self))
+    nesting = nesting + (self,)
     path = []
     prev_edge = False
     for item in self.items:
-      path, prev_edge = self._push_item_on_se_path(path, prev_edge, item)
+      path, prev_edge = self._push_item_on_se_path(path, prev_edge, item,
+                                                   nesting)
     return path, prev_edge
 
   def _is_first_item_edge(self, reverse = False):
@@ -35,7 +42,7 @@ class CapturedPath:
       return item.line._is_first_item_edge(reverse != (item.orient == "-"))
     return False
 
-  def _push_item_on_se_path(self, path, prev_edge, item):
+  def _push_item_on_se_path(self, path, prev_edge, item, nesting = ()):
     if isinstance(item.line, str):
       raise gfapy.RuntimeError(
         "Captured path cannot be computed; a reference has not been resolved\n"+
@@ -56,7 +63,7 @@ class CapturedPath:
           "Line: {}\n".format(self)+
           "Item: {}".format(item.line))
       if not path:
-        self._push_first_edge_on_se_path(path, self.items)
+        self._push_first_edge_on_se_path(path, self.items, nesting)
       else:
         self._push_nonfirst_edge_on_se_path(path, item)
       prev_edge = True
@@ -66,7 +73,7 @@ class CapturedPath:
           "Captured path cannot be computed; item is not connected\n"+
           "Line: {}\n".format(self)+
           "Item: {}".format(item.line))
-      subpath, prev_edge_subpath = item.line._compute_captured_path()
+      subpath, prev_edge_subpath = item.line._compute_captured_path(nesting)
       if not subpath:
         raise gfapy.AssertionError()
       if item.orient == "+":
@@ -118,7 +125,7 @@ class CapturedPath:
       oss = [oss[1].inverted(), oss[0].inverted()]
     return oss, directed
 
-  def _push_first_edge_on_se_path(self, path, items):
+  def _push_first_edge_on_se_path(self, path, items, nesting = ()):
     oriented_edge = items[0]
     oss, directed = self._oriented_segments_of_edge(oriented_edge)
     if len(items) > 1 and not directed:
@@ -135,7 +142,7 @@ class CapturedPath:
         # if oss_of_next have no element in common with oss an error will be
         # raised in the next iteration, so does not need to be handled here
       elif isinstance(nextitem.line, gfapy.line.group.Ordered):
-        subpath = nextitem.line.captured_path
+        subpath = nextitem.line._compute_captured_path(nesting)[0]
         if not subpath: return# does not need to be further handled here
         if nextitem.orient == "+":
           firstsubpathsegment = subpath[0]
